@@ -170,6 +170,9 @@ func Random(r *rand.Rand, ft Features) *cat.Catalog {
 		}
 		f.Ps = ft.params(r, ft.MaxParams, own)
 		f.Enc.Variadic = pick(r, 0.1)
+		if pick(r, 0.25) {
+			f.Enc.Nest = 1 + r.Intn(2)
+		}
 		c.Fns[fmt.Sprintf("c%d", i)] = f
 	}
 	anyKey := func(group bool) string {
@@ -237,6 +240,9 @@ func Random(r *rand.Rand, ft Features) *cat.Catalog {
 			f.Ps = append(f.Ps, extra...)
 		}
 		fixObjects(f)
+		if pick(r, 0.2) {
+			f.Enc.Nest = 1
+		}
 		c.Fns[fmt.Sprintf("d%d", i)] = f
 	}
 	for i := 1; i <= ft.Invs; i++ {
@@ -252,6 +258,10 @@ func Random(r *rand.Rand, ft Features) *cat.Catalog {
 			}
 		}
 		fixObjects(f)
+		if pick(r, 0.25) {
+			f.Enc.Nest = 1 + r.Intn(2)
+		}
+		f.Enc.Variadic = pick(r, 0.1)
 		c.Fns[fmt.Sprintf("i%d", i)] = f
 	}
 	for _, id := range c.FnIDs() {
